@@ -76,6 +76,7 @@ class Evaluator:
         on_store: Optional[Callable[["Evaluator", ast.AST, Any], bool]] = None,
     ):
         self.env = dict(env)
+        self.inplace_ops = False  # opt-in: `x -= y` calls x.__isub__ when x defines it
         self.on_call = on_call
         self.on_attr = on_attr
         self.on_subscript = on_subscript
@@ -183,7 +184,7 @@ class Evaluator:
             # stand-ins raise what the library they model raises (numpy: operands could not be broadcast)
             raise EvalRaise("ValueError", e)
         except TypeError:
-            raise Unknown("binop on incompatible values")
+            raise Unknown(f"binop on incompatible values: {ast.unparse(e)[:80]}")
         raise Unknown("binary op")
 
     def _e_BoolOp(self, e):
@@ -476,6 +477,7 @@ class Evaluator:
         env.update(bound)
         sub = Evaluator(env, self.on_call, self.on_attr, self.on_subscript, self.on_store)
         sub.loops, sub.with_binds_value, sub.globals_env, sub.on_name, sub.on_def = self.loops, self.with_binds_value, self.globals_env, self.on_name, self.on_def
+        sub.inplace_ops = self.inplace_ops
         sub.trace = self.trace
         if hasattr(self, "fn"):
             sub.fn = self.fn  # type: ignore[attr-defined]
@@ -562,6 +564,28 @@ class Evaluator:
             if s.value is not None:
                 self.assign(s.target, self.eval(s.value))
         elif isinstance(s, ast.AugAssign):
+            iname = {ast.Add: "__iadd__", ast.Sub: "__isub__", ast.Mult: "__imul__", ast.BitOr: "__ior__", ast.BitAnd: "__iand__"}.get(type(s.op))
+            if iname and self.inplace_ops:
+                # an object that defines the in-place operator is changed in place (lists, sets, stand-ins with __isub__)
+                left = self.eval(_as_load(s.target))
+                if not isinstance(left, (Opaque, int, float, str, tuple, bool, type(None))):
+                    try:
+                        meth = getattr(left, iname)
+                    except AttributeError:
+                        meth = None
+                    if meth is not None:
+                        right = self.eval(s.value)
+                        if isinstance(right, Opaque):
+                            raise Unknown("in-place operation with an opaque operand")
+                        try:
+                            res = meth(right)
+                        except ValueError:
+                            raise EvalRaise("ValueError", s)
+                        except KeyError:
+                            raise EvalRaise("KeyError", s)
+                        if res is not NotImplemented:
+                            self.assign(s.target, res)
+                            return
             fake = ast.BinOp(left=_as_load(s.target), op=s.op, right=s.value)
             self.assign(s.target, self.eval(fake))
         elif isinstance(s, ast.Expr):
